@@ -11,7 +11,7 @@
 From mathcomp Require Import all_ssreflect all_algebra.
 Require Import C04.Model C04.ProofsBridge C04.ProofsTri C04.ProofsChol C04.ProofsStruct C04.ProofsCholFactor
                C04.ProofsKron C04.ProofsKronTri C04.ProofsEig C04.ProofsEigKron C04.ProofsBlock C04.ProofsAlg
-               C04.ProofsJitter C04.ProofsSound C04.ProofsFactor.
+               C04.ProofsJitter C04.ProofsSound C04.ProofsFactor C04.ProofsKronDiag.
 Set Implicit Arguments.
 Unset Strict Implicit.
 Unset Printing Implicit Defensive.
@@ -115,6 +115,16 @@ Fixpoint wfpd (o : opd) : Prop :=
       let b0 := head (DIdentity F 0) bs in
       [/\ size bs = k, (0 < k)%N, (0 < osize b0)%N, allc wfpd bs & allc (fun b => cls_of b = cls_of b0) bs]
   | DBatchRepeat b => wfpd b
+  | DKronAddedKronDiag cf fs ds eig =>
+      (* Kronecker-structured diagonal: the eigh oracle's per-factor specification (of the K_i when every diagonal factor is
+         constant, of the D_i^-1/2 K_i D_i^-1/2 otherwise), positive / non-zero diagonal factors, shifted eigenvalues non-zero *)
+      [/\ allc (fun f => (0 < osize f)%N) fs, dense_wf o
+        & if cf then
+            all3P (@kc_spec F) (map (fun f => Fac (osize f) (osize f) (get (dense_of RA f))) fs) eig ds /\
+            (forall J, (J < osize o)%N -> vget (kron_evals RA (map snd eig)) J / cprod ds + 1 != 0)
+          else
+            all3P (@kd_spec F) (map (fun f => Fac (osize f) (osize f) (get (dense_of RA f))) fs) eig ds /\
+            (forall J, (J < osize o)%N -> vget (kron_evals RA (map snd eig)) J + 1 != 0)]
   | _ => False
   end.
 
@@ -416,6 +426,65 @@ apply: (@solves_entry o _ _ N (mxfun (Qb *m diag_mx Wb *m Qb^T + (vget d 0)%:M))
   by apply: eq_bigr => J _; rewrite (mxfunE _ (Ordinal IM) J) !mxE.
 Qed.
 
+(* ---------------------------------------------------------------- Kron + Kronecker-structured diagonal *)
+Lemma osize_kkd cf fs ds eig : osize (DKronAddedKronDiag cf fs ds eig) = prodm (map ofac fs).
+Proof.
+rewrite /osize /=; elim: fs => [|f fs IH] /=; first by rewrite /prodm big_nil.
+by rewrite IH /prodm big_cons.
+Qed.
+
+Lemma dense_kkd cf fs ds eig I J : allc (fun f => (0 < osize f)%N) fs ->
+  (I < prodm (map ofac fs))%N -> (J < prodm (map ofac fs))%N ->
+  get (dense_of RA (DKronAddedKronDiag cf fs ds eig)) I J
+  = if I == J then kron (map ofac fs) I J + vget (kron_evals RA ds) I else kron (map ofac fs) I J.
+Proof.
+move=> pos IM JM; rewrite /= -/(kmats fs).
+have := kmats_size fs; have := @kmats_entry fs I J pos IM JM.
+case: (kmats fs) => N K /= eK eN.
+by rewrite get_mtab ?eN // eK.
+Qed.
+
+Lemma eigkron_sound_aux s cf fs ds eig :
+  let N := prodm (map (@qfac F) eig) in
+  let Kb : 'M[F]_N := \matrix_(I, J) kron (map ofac fs) I J in
+  let Db : 'rV[F]_N := \row_J vget (kron_evals RA ds) J in
+  allc (fun f => (0 < osize f)%N) fs -> prodm (map ofac fs) = N ->
+  (forall (B : cols F) j, (j < size B)%N ->
+     (Kb + diag_mx Db) *m cvo N (nth [::] (keig_solve RA cf eig ds (size B) B) j) = cvo N (nth [::] B j)) ->
+  sound_fn (DKronAddedKronDiag cf fs ds eig)
+           (run_method RA s (DKronAddedKronDiag cf fs ds eig) (MEigKron cf (map csize (map (@cls_of F) fs)))).
+Proof.
+move=> N Kb Db pos eN H B.
+exists (keig_solve RA cf eig ds (size B) B); split=> //.
+  by rewrite /keig_solve /qsq_solve; case: (cf); rewrite size_map /kron_apply /cols_of_flat size_mkseq.
+move=> j jB.
+have eo : osize (DKronAddedKronDiag cf fs ds eig) = N by rewrite osize_kkd.
+apply: (@solves_entry _ _ _ N (mxfun (Kb + diag_mx Db)) eo).
+- move=> I J IM JM.
+  rewrite (mxfunE _ (Ordinal IM) (Ordinal JM)) dense_kkd ?eN // !mxE -(inj_eq val_inj) /=.
+  by case: eqP => _; rewrite ?mulr1n ?mulr0n ?addr0.
+- move=> I IM; have /colP/(_ (Ordinal IM)) := H B j jB; rewrite !mxE => <-.
+  by apply: eq_bigr => J _; rewrite (mxfunE _ (Ordinal IM) J) !mxE.
+Qed.
+
+Lemma eigkron_sound s cf fs ds eig :
+  wfpd (DKronAddedKronDiag cf fs ds eig) ->
+  sound_fn (DKronAddedKronDiag cf fs ds eig)
+           (run_method RA s (DKronAddedKronDiag cf fs ds eig) (MEigKron cf (map csize (map (@cls_of F) fs)))).
+Proof.
+case: cf => -[pos dwf [sp nzW]].
+- have [_ [pKm _] _ _ _] := kc_global sp.
+  apply: eigkron_sound_aux => // B j jB.
+  have c0 : (0 < size B)%N by apply: leq_ltn_trans jB.
+  apply: (keig_const_correct sp c0 jB erefl) => J.
+  by rewrite mxE; apply: nzW; rewrite osize_kkd pKm.
+- have [_ [pKm _] _ _ _] := kd_global sp.
+  apply: eigkron_sound_aux => // B j jB.
+  have c0 : (0 < size B)%N by apply: leq_ltn_trans jB.
+  apply: (keig_diag_correct sp c0 jB erefl) => J.
+  by rewrite mxE; apply: nzW; rewrite osize_kkd pKm.
+Qed.
+
 (* ---------------------------------------------------------------- block-diagonal / block-interleaved, any block solver *)
 Local Notation d0 := (DIdentity F 0).
 
@@ -500,6 +569,7 @@ elim/opd_ind': o => //.
   have -> // : all (fun b => isSome (run_plan RA s up b (cholesky_plan (cls_of (head d0 bs))) [::])) bs.
   by apply/(all_nthP d0) => i; rewrite sz => /sg /sound_some.
 (* (BatchRepeat: the plan and the matrix are those of the base - closed by conversion) *)
+- by move=> cf fs ds eig _ [_ wf _]; apply: plan_dense_sound => //; case: cf.
 Qed.
 
 (* ---------------------------------------------------------------- EVERY ROUTE the selector can take *)
@@ -618,6 +688,12 @@ elim/opd_ind': o => //.
 - (* BatchRepeat *)
   move=> b IH wf; rewrite /route_ok /=; split=> //.
   exact: (@solve_fn_sound s (DBatchRepeat b)).
+- (* Kron + Kronecker-structured diagonal *)
+  move=> cf fs ds eig _ wf.
+  have Hcs := eigkron_sound s wf.
+  rewrite /route_ok; case: cf wf Hcs => wf Hcs; split=> //.
+  + by apply: (@solve_fn_sound s (DKronAddedKronDiag true fs ds eig) (MEigKron true (map csize (map (@cls_of F) fs)))).
+  + by apply: (@solve_fn_sound s (DKronAddedKronDiag false fs ds eig) (MEigKron false (map csize (map (@cls_of F) fs)))).
 Qed.
 
 (* ---------------------------------------------------------------- THE THEOREMS *)
@@ -671,6 +747,15 @@ Theorem alg_solve_sound_cholof_all (s : settings) up (o : opd) (B X : cols F) :
 Proof.
 move=> wf; rewrite alg_solve_cholof.
 by have [X' [-> sX sol]] := plan_sound s up wf B => -[<-].
+Qed.
+
+Theorem alg_solve_sound_cholof_all_left (s : settings) up (o : opd) (B Y : cols F) k (L : mat F) :
+  wfpd o -> alg_solve RA s (DCholOf up o) B (Some (k, L)) = Some Y ->
+  exists X, [/\ size X = size B, forall j, (j < size B)%N -> solves o (nth [::] X j) (nth [::] B j)
+              & Y = left_mul RA k (osize o) L X].
+Proof.
+move=> wf; rewrite alg_solve_cholof.
+by have [X' [-> sX sol]] := plan_sound s up wf B => -[<-]; exists X'.
 Qed.
 
 (* the matrix of a well-formed operator is invertible (its Cholesky route solves every right-hand side) *)
